@@ -117,6 +117,16 @@ SEEDS = {
         "nodes": {1: (0, (0, 2, 0, 2)), 2: (1, (0, 2, 1, 3)), 3: (63, (1, 3, 1, 3)), 4: (64, (1, 3, 62, 65)), 5: (0, (60, 64, 60, 65))},
         "edges": [(1, 2), (2, 3), (3, 4)],
     },
+    # for the 258-frame world: a track across frame 256
+    "tall": {
+        "nodes": {1: (0, (0, 2, 0, 2)), 2: (1, (0, 2, 1, 3)), 3: (256, (1, 3, 1, 3)), 4: (257, (1, 3, 2, 5)), 5: (257, (0, 1, 0, 2))},
+        "edges": [(1, 2), (2, 3), (3, 4)],
+    },
+    # ids 6, 7, 8 (a set of them does not iterate in ascending order) on a chain with a gap at frame 2
+    "skip8": {
+        "nodes": {6: (0, (0, 2, 0, 2)), 7: (1, (0, 2, 1, 3)), 8: (3, (0, 3, 1, 3)), 9: (3, (3, 4, 4, 6))},
+        "edges": [(6, 7), (7, 8)],
+    },
     # three unconnected nodes in consecutive frames
     "iso3": {
         "nodes": {1: (0, (0, 2, 0, 2)), 2: (1, (0, 2, 1, 3)), 3: (2, (1, 3, 1, 3))},
@@ -158,6 +168,8 @@ WORLDS = {
     "seg-2d-reloaded": dict(ndim=3, seg=True, scale=[1.0, 2.0, 0.75], pos="single", extra=["iou"], custom=False, ids="compute", reload=True),
     # a movie that holds one complete 64 x 64 x 64 chunk of the GEFF exporter (and partial ones next to it)
     "seg-2d-movie": dict(ndim=3, seg=True, scale=None, pos="single", extra=[], custom=False, ids="compute", T=65, shape=(64, 65)),
+    # more frames than an 8-bit index can count, frames smaller than 256 pixels across
+    "seg-2d-tall": dict(ndim=3, seg=True, scale=None, pos="single", extra=["iou"], custom=False, ids="compute", T=258),
     "noseg-2d-long": dict(ndim=3, seg=False, scale=None, pos="single", extra=[], custom=False, ids="compute", T=1100),
     "noseg-3d": dict(ndim=4, seg=False, scale=[1.0, 2.0, 1.0, 0.75], pos="single", extra=[], custom=True, ids="compute"),
     "noseg-2d-axes": dict(ndim=3, seg=False, scale=None, pos="axes", extra=[], custom=True, ids="compute"),
